@@ -27,3 +27,23 @@ Check write_c_str_frame :
   length m' = length m
   /\ forall j, j < off \/ off + N.to_nat n <= j -> nth_error m' j = nth_error m j.
 Print Assumptions write_c_str_frame.
+
+(** The two-call idiom: a call succeeds exactly when its buffer is at least
+    the reported size, and a retry on any buffer of exactly the reported size
+    succeeds, writes the whole text plus NUL and touches nothing else. *)
+Theorem write_c_str_retry : write_c_str_retry_stmt.
+Proof. exact write_c_str_retry_proof. Qed.
+Check write_c_str_retry :
+  forall (off : nat) (n : N) (m : list N) (frags : list (list N)) (off2 : nat) (m2 : list N),
+  off + N.to_nat n <= length m ->
+  (total frags < usize_max)%N ->
+  let '(_, nw1, ok1) := write_c_str off n m frags in
+  (ok1 = true <-> (nw1 <= n)%N)
+  /\ (off2 + N.to_nat nw1 <= length m2 ->
+      let '(m2', nw2, ok2) := write_c_str off2 nw1 m2 frags in
+      ok2 = true /\ nw2 = nw1
+      /\ (forall k, k < length (concat frags) -> nth_error m2' (off2 + k) = nth_error (concat frags) k)
+      /\ nth_error m2' (off2 + length (concat frags)) = Some 0%N
+      /\ length m2' = length m2
+      /\ (forall j, j < off2 \/ off2 + N.to_nat nw1 <= j -> nth_error m2' j = nth_error m2 j)).
+Print Assumptions write_c_str_retry.
